@@ -1,7 +1,8 @@
 /-
   Props/C15.lean — C15 "diagrammatic gradients evaluate to the gradient of the evaluation".
-  Property theorems only; proofs in Proofs/Param.lean, Proofs/ParamGates.lean;
-  a concrete non-trivial instance of the hypotheses in Proofs/ParamJet.lean.
+  Property theorems only; proofs in Proofs/Param.lean, Proofs/ParamGates.lean, Proofs/ParamBubble.lean
+  and (the executable polynomial instance) Proofs/PolyRing.lean, PolyDiagram.lean, PolyBubble.lean;
+  a concrete non-trivial instance of the per-gate hypotheses in Proofs/ParamJet.lean.
 
   PARTIAL.  Proved, for ANY derivation D (additive + Leibniz) on ANY commutative ring:
    * `then_leibniz`, `tensor_leibniz` — product rules for `>>` and `@`;
@@ -9,17 +10,28 @@
      "no free symbol → empty sum" exits): if every box gradient evaluates to D of the box, the
      gradient of the diagram evaluates to D of its evaluation; `grad_tensor_boxes` closes the
      hypothesis for tensor.Box.grad; `grad_of_constant`; `jacobian_order`;
+   * bubbles (tensor.py:713-735, as repaired): `bubble_chain_rule` D(p ∘ f) = (p' ∘ f) · D f for a
+     polynomial function given by its integer coefficients; `spiders_entrywise_product`
+     Spider(1,2) >> A @ B >> Spider(2,1) is the entrywise product; `bubble_grad_rule` the terms
+     built by Bubble.grad sum to D of the array of the bubble; `grad_with_bubbles` the recursion of
+     Diagram.grad over plain boxes and single-wire polynomial bubbles;
    * per-gate rules, symbolic in ν = e^{iπ p(x)} with D ν = iπ p' ν: pure rotation rule (general
      and for the arrays of Rx, Ry, Rz as gates.py writes them), CU1 / CRz / CRx pure rules, the
      mixed parameter-shift rule on the doubled map conj(U) ⊗ U, Scalar.grad, Spider.grad.
+  The EXECUTABLE instance satisfies the hypotheses: the model's formal derivative `Poly.deriv` is a
+  derivation of the ring of the model's polynomials in normal form (`deriv_is_derivation`), hence
+  `grad_poly` / `grad_poly_repaired` — now theorems, for every polynomial diagram — and
+  `grad_poly_bubbles` for polynomial diagrams with bubbles (what the driver's `xgrad` computes).
   `decide`d witnesses of finding F9 (mixed meaning of `Scalar.grad`) on integer polynomials.
   NOT proved: that sympy's `diff` is such a derivation and that sympy's exp/sin/cos satisfy
-  `PhaseHyp` (oracle); the ring laws of the executable instance `Poly` (so `grad_poly` below is
-  only a `Prop`, checked by the streams `pgrad`/`pjac` on every run); bubbles (chain rule
-  through Spider(1, 2)) are oracle-only; box-gradient terms are whiskered as single boxes (a
-  term that is itself a diagram is represented by its evaluation — functoriality is C09's).
+  `PhaseHyp` (oracle; sympy's polynomial arithmetic is compared with the model's by the streams
+  `pgrad`/`pjac`/`xgrad` on every run); `bubble' @ term` is read as the Kronecker product of the
+  two evaluations and box-gradient terms are whiskered as single boxes (a term that is itself a
+  diagram is represented by its evaluation — functoriality is C09's); bubbles are single-wire,
+  polynomial and not nested.
 -/
 import Proofs.ParamJet
+import Proofs.PolyBubble
 
 namespace DV.C15
 open DV.Param
@@ -57,10 +69,85 @@ theorem grad_tensor_boxes {R : Type} [CommRing R] [HasConj R] (d : Deriv R) (che
   DV.Param.grad_product_rule d dep _ (boxGrad_dims checksFS dep d.D)
     (boxGrad_spec d checksFS dep hconj hdep) hdep ls i k
 
-/-- The executable instance of the same statement.  NOT proved (ring laws of `Poly`). -/
-def grad_poly : Prop :=
-  ∀ (d : PolyDiagram) (v : Nat) (i k : Nat),
-    evalSum (d.grad false v) i k = Poly.deriv v (d.eval i k)
+/-! ### the executable instance -/
+
+/-- The model's formal partial derivative is a derivation (additive + Leibniz) of the ring of the
+    model's polynomials in normal form. -/
+theorem deriv_is_derivation (v : Nat) :
+    ∃ D : Deriv NPoly, ∀ a : NPoly, (D.D a).1 = Poly.deriv v a.1 :=
+  ⟨NPoly.derivN v, fun _ => rfl⟩
+
+/-- **The executable instance** (tensor.Box.grad as found): the derivation `Poly.deriv` in the
+    product rule, for every polynomial diagram (data in normal form or not). -/
+theorem grad_poly (d : PolyDiagram) (v : Nat) (i k : Nat) :
+    evalSum (d.grad false v) i k = Poly.deriv v (d.eval i k) :=
+  grad_poly_proof false d v i k
+
+/-- …and with the repaired tensor.Box.grad (empty sum for a box without the symbol). -/
+theorem grad_poly_repaired (d : PolyDiagram) (v : Nat) (i k : Nat) :
+    evalSum (d.grad true v) i k = Poly.deriv v (d.eval i k) :=
+  grad_poly_proof true d v i k
+
+/-- `grad_product_rule` instantiated literally at the executable ring: data in normal form,
+    `D = Poly.deriv v`. -/
+theorem grad_npoly (checksFS : Bool) (v : Nat) (ls : List (PLayer NPoly)) (i k : Nat) :
+    evalSum (gradLayers (npolyDep v) (boxGrad checksFS (npolyDep v) (NPoly.derivN v).D) ls) i k
+      = (NPoly.derivN v).D (evalLayers ls i k) :=
+  DV.Param.grad_npoly checksFS v ls i k
+
+/-- The executable jacobian (driver command `pjac`): block `k` of the columns is the formal
+    derivative with respect to the `k`-th listed variable. -/
+theorem jacobian_poly (checksFS : Bool) (d : PolyDiagram) (vs : List Nat) (c : Nat)
+    (i k j : Nat) (hj : j < c) (v : Nat) (hk : vs[k]? = some v) :
+    jacobianMat c (vs.map (fun v => evalSum (d.grad checksFS v))) i (k * c + j)
+      = Poly.deriv v (d.eval i j) :=
+  jacobian_poly_proof checksFS d vs c i k j hj v hk
+
+/-! ### bubbles: the chain rule of tensor.Bubble.grad -/
+
+/-- **Chain rule** at one entry: `D (p(x)) = p'(x) · D x`, `p` given by integer coefficients and
+    `p'` by the coefficient list `polyDeriv` (sympy: `func(tmp).diff(tmp).subs(tmp, x)`). -/
+theorem bubble_chain_rule {R : Type} [CommRing R] (d : Deriv R) (ι : ℤ →+* R) (cs : List Int)
+    (x : R) : d.D (polyApply ι cs x) = polyApply ι (polyDeriv cs) x * d.D x :=
+  chain_rule d ι cs x
+
+/-- `Spider(1, 2, a) >> A @ B >> Spider(2, 1, b)` is the entrywise product of `A, B : a → b`. -/
+theorem spiders_entrywise_product {R : Type} [CommRing R] (a b : Nat) (A B : Mat R) (i j : Nat) :
+    spiderSandwich a b A B i j = if i < a ∧ j < b then A i j * B i j else 0 :=
+  spiderSandwich_eq a b A B i j
+
+/-- **Bubble.grad**: the diagrams `Spider(1,2) >> inside.bubble(p') @ t >> Spider(2,1)`, `t` over the
+    terms of `inside.grad(var)`, sum entry by entry to `D` of the array of the bubble — i.e. to
+    `(p' ∘ f) · D f`. -/
+theorem bubble_grad_rule {R : Type} [CommRing R] [HasConj R] (d : Deriv R) (ι : ℤ →+* R)
+    (checksFS : Bool) (depP : PBox R → Bool)
+    (hconj : ∀ x, d.D (HasConj.conj x) = HasConj.conj (d.D x))
+    (hdepP : ∀ b, depP b = false → ∀ i j, d.D (b.arr i j) = 0)
+    (dom cod : List Nat) (func : List Int) (inside : List (PLayer R)) (i j : Nat) :
+    ((xboxGrad checksFS depP d.D (.bubble dom cod func inside)).map
+        (fun b' => b'.arr (ι : Int → R) i j)).sum
+      = d.D (bubbleArr (ι : Int → R) (prod dom) (prod cod) func inside i j) :=
+  bubble_grad_spec d ι checksFS depP hconj hdepP (.bubble dom cod func inside) trivial i j
+
+/-- tensor.Diagram.grad over plain boxes and bubbles evaluates to the derivative of the
+    evaluation. -/
+theorem grad_with_bubbles {R : Type} [CommRing R] [HasConj R] (d : Deriv R) (ι : ℤ →+* R)
+    (checksFS : Bool) (depP : PBox R → Bool)
+    (hconj : ∀ x, d.D (HasConj.conj x) = HasConj.conj (d.D x))
+    (hdepP : ∀ b, depP b = false → ∀ i j, d.D (b.arr i j) = 0)
+    (ls : List (XLayer R)) (hin : ∀ l ∈ ls, l.box.isInput) (i k : Nat) :
+    xevalSum (ι : Int → R) (xgradLayers (XBox.dep depP) (xboxGrad checksFS depP d.D) ls) i k
+      = d.D (xevalLayers (ι : Int → R) ls i k) :=
+  xgrad_rule d ι checksFS depP hconj hdepP ls hin i k
+
+/-- **The executable instance with bubbles**: on polynomial diagrams of plain boxes and bubbles the
+    model's gradient (driver command `xgrad`) evaluates to the formal derivative of the model's
+    evaluation (`xeval`). -/
+theorem grad_poly_bubbles (checksFS : Bool) (v : Nat) (ls : List (XLayer Poly))
+    (hin : ∀ l ∈ ls, l.box.isInput) (i k : Nat) :
+    xevalSum Poly.const (polyXGrad checksFS v ls) i k
+      = Poly.deriv v (xevalLayers Poly.const ls i k) :=
+  xgrad_poly checksFS v ls hin i k
 
 /-- A diagram not depending on the symbol has the empty sum as gradient. -/
 theorem grad_of_constant {R : Type} (dep : PBox R → Bool) (G : PBox R → List (PBox R))
@@ -195,5 +282,28 @@ def g0 : PolyDiagram :=
 example : (g0.grad false 0).length = 2 := by decide
 example : evalSum (g0.grad false 0) 1 1 = Poly.deriv 0 (g0.eval 1 1) := by decide
 example : g0.grad false 2 = [] := by decide
+example : evalSum (g0.grad true 0) 0 1 = Poly.deriv 0 (g0.eval 0 1) := grad_poly_repaired g0 0 0 1
+
+/-- `h >> f.bubble(p)` with `p(t) = 1 + 2t + t³`, `h : 1 → 2`, `f : 2 → 2`. -/
+def b0 : List (XLayer Poly) :=
+  [ { left := [], right := [],
+      box := .plain { dom := [], cod := [2], dagger := false,
+                      data := [Poly.var 0 * Poly.var 0, Poly.var 1] } },
+    { left := [], right := [],
+      box := .bubble [2] [2] [1, 2, 0, 1]
+        [ { left := [], right := [],
+            box := { dom := [2], cod := [2], dagger := false,
+                     data := [Poly.var 0, 1, Poly.var 1, Poly.var 0 * Poly.var 1] } } ] } ]
+
+example : polyDeriv [1, 2, 0, 1] = [2, 0, 3] := by decide
+example : (polyXGrad true 0 b0).length = 2 := by decide
+example : xevalSum Poly.const (polyXGrad true 0 b0) 0 1
+    = Poly.deriv 0 (xevalLayers Poly.const b0 0 1) := by decide
+example : xevalLayers Poly.const b0 0 1 ≠ 0 ∧ Poly.deriv 0 (xevalLayers Poly.const b0 0 1) ≠ 0 := by
+  decide
+example : polyXGrad true 2 b0 = [] := by decide
+example (i k : Nat) : xevalSum Poly.const (polyXGrad true 0 b0) i k
+    = Poly.deriv 0 (xevalLayers Poly.const b0 i k) :=
+  grad_poly_bubbles true 0 b0 (by intro l hl; simp [b0] at hl; rcases hl with rfl | rfl <;> trivial) i k
 
 end DV.C15
